@@ -159,7 +159,8 @@ def main():
 
     sha = hashlib.sha256((bsrc + psrc).encode()).hexdigest()
     L = ["(* GENERATED by /verif/tr/translate_c01.py from autode/smiles/base.py, autode/smiles/parser.py and",
-         f"   autode/atoms.py -- do not edit.  sha256(base.py+parser.py) = {sha} *)",
+         "   autode/atoms.py -- do not edit.  (No source hash here: the file changes only when a table changes, so",
+         "   concurrent runs on other worktrees with the same tables do not force a rebuild.) *)",
          "From Coq Require Import List Ascii String.", "Import ListNotations.", "Open Scope string_scope.", ""]
 
     def strs(name, xs, comment):
